@@ -94,6 +94,46 @@ func (c *Class) SigWire() string {
 	panic("kind " + c.Kind)
 }
 
+// GoSig is a readable rendering of the class (the derive call and the signature it is applied to).
+func (c *Class) GoSig() string {
+	sig := func(ps []Param, rs []int, extra string) string {
+		return "func(" + goParams(ps) + ")" + goResults(rs, extra)
+	}
+	switch c.Kind {
+	case "curry":
+		return "deriveCurry(" + sig(c.Ps, c.Rs, "") + ")"
+	case "flip":
+		return "deriveFlip(" + sig(c.Ps, c.Rs, "") + ")"
+	case "apply":
+		return "deriveApply(" + sig(c.Ps, c.Rs, "") + ", last)"
+	case "uncurrycurry":
+		return "deriveUncurry(deriveCurry(" + sig(c.Ps, c.Rs, "") + "))"
+	case "uncurry":
+		return "deriveUncurry(func(" + goParams(c.Outer) + ") " + sig(c.Inner, c.Rs, "") + ")"
+	case "tuple":
+		return "deriveTuple(" + goParams(unnamed(c.Ts)) + ")"
+	case "compose":
+		in := c.Ins
+		var fs []string
+		for _, outs := range c.Stages {
+			fs = append(fs, sig(unnamed(in), outs, "error"))
+			in = outs
+		}
+		return "deriveCompose(" + strings.Join(fs, ", ") + ")"
+	case "fmape":
+		return "deriveFmap(" + sig(unnamed([]int{c.In}), c.Outs, "") + ", " + sig(nil, []int{c.In}, "error") + ")"
+	case "joine":
+		return "deriveJoin(" + sig(nil, c.Outs, "error") + ", error)"
+	case "bind":
+		return "deriveJoin(deriveFmap(" + sig(unnamed([]int{c.In}), c.Outs, "error") + ", " + sig(nil, []int{c.In}, "error") + "))"
+	case "traverse":
+		return "deriveTraverse(" + sig(unnamed([]int{c.In}), c.Outs, "error") + ", []" + Types[c.In].Go + ")"
+	case "toerror":
+		return "deriveToError(error, " + sig(c.Ps, c.Rs, "bool") + ")"
+	}
+	return c.Kind
+}
+
 // goParams prints a parameter list with the class's own names.
 func goParams(ps []Param) string {
 	ss := make([]string, len(ps))
